@@ -37,13 +37,13 @@ m = {
     },
     'engines': [
         {'name': 'lean', 'path': 'lean/', 'serves_properties': [c['property_id'] for c in checks],
-         'kind_free_text': 'Lean 4 project OtelVerif: Gen (regenerated from source each run), Model (executable), Lemmas, Props (theorems); otel_model line-protocol driver'},
+         'kind_free_text': 'Lean 4 project OtelVerif: Gen (regenerated from the source on every run: constants, tables, regexes, lock facts, memory orders, and the tabulated complete graphs of the byte-level functions obtained by running the real code), Model (executable), Lemmas, Props (theorems); otel_model line-protocol driver'},
         {'name': 'harness', 'path': 'harness/', 'serves_properties': [c['property_id'] for c in checks],
-         'kind_free_text': 'C++ correspondence harnesses compiled from /repo working tree with ASan+UBSan; Engine F (API headers), S (SDK sequential), D (deterministic scheduler shim)'},
+         'kind_free_text': 'C++ correspondence harnesses compiled from /repo working tree with ASan+UBSan; Engine F (API headers), S (SDK sequential), D (deterministic scheduler shim); tabulators and probes (harness/tab, harness/p_*.cc) run in the extraction step; a ThreadSanitizer real-thread harness (t_c11) for the memory orders of the queue and the spin lock'},
     ],
     'checks': checks,
     'not_applicable': na,
-    'notes': 'check.py <ID> --tier quick|thorough; honours VERIF_SEED, VERIF_TIER, VERIF_REPO (self-validation only). See DESIGN.md.',
+    'notes': 'check.py <ID> --tier quick|thorough; honours VERIF_SEED, VERIF_TIER, VERIF_REPO (self-validation only). See DESIGN.md section 9 (as built): 9.4 repairs made to /repo, 9.5 known findings, 9.7 seeded property-breaking changes (179, all caught with a failing input), 9.8 behaviour-preserving changes (54: 53 quiet, 1 reported without a failing input), 9.9 tabulated graphs, 9.10 coverage of the anchored code by the correspondence runs, 9.11 release/acquire model of the queue and the spin lock.',
 }
 with open(os.path.join(VERIF, 'MANIFEST.json'), 'w') as f:
     json.dump(m, f, indent=1)
